@@ -148,6 +148,9 @@ func main() {
 	if d.Stdout != "" {
 		fmt.Print(d.Stdout)
 	}
+	if d.SleepAfterMs > 0 {
+		time.Sleep(time.Duration(d.SleepAfterMs) * time.Millisecond)
+	}
 	appendLog(dir, map[string]any{"kind": "end", "hook": rel, "n": n, "pid": os.Getpid(), "end_mono": monoNs(), "exit": d.Exit, "kill": d.Kill})
 	if d.Kill {
 		_ = syscall.Kill(os.Getpid(), syscall.SIGKILL)
